@@ -75,6 +75,7 @@ static A: Counting = Counting;
 type Cf = cfb::CompoundFile<Cursor<Vec<u8>>>;
 
 static CASE_START_MS: AtomicU64 = AtomicU64::new(0);
+static CASE_START_CPU_MS: AtomicU64 = AtomicU64::new(0);
 
 struct Rng(u64);
 impl Rng {
@@ -380,8 +381,11 @@ fn main() {
     // watchdog: a case running longer than the limit is a hang
     std::thread::spawn(move || loop {
         std::thread::sleep(Duration::from_millis(50));
+        // hung: more CPU time than the limit (a loop that never ends, however busy the machine is), or no end for
+        // 8 x the limit of wall time
         let st = CASE_START_MS.load(Ordering::SeqCst);
-        if st != 0 && (t0.elapsed().as_millis() as u64).saturating_sub(st) > limit_ms {
+        let cpu = cfb_verif_harness::watchdog::cpu_ms().saturating_sub(CASE_START_CPU_MS.load(Ordering::SeqCst));
+        if st != 0 && (cpu > limit_ms || (t0.elapsed().as_millis() as u64).saturating_sub(st) > 8 * limit_ms) {
             std::process::exit(4);
         }
     });
@@ -400,6 +404,7 @@ fn main() {
         let base = CUR.load(Ordering::SeqCst);
         PEAK.store(base, Ordering::SeqCst);
         BIGGEST.store(0, Ordering::SeqCst);
+        CASE_START_CPU_MS.store(cfb_verif_harness::watchdog::cpu_ms(), Ordering::SeqCst);
         CASE_START_MS.store((t0.elapsed().as_millis() as u64).max(1), Ordering::SeqCst);
         let mut opened = json!({});
         let mut panic: Value = Value::Null;
